@@ -72,8 +72,8 @@ CHECKS: dict[str, dict] = {
         text="Every explored interleaving of 2-3 concurrent send_packet calls (three chunks per packet, transport suspending at arbitrary points) leaves a wire that parses into exactly the multiset of sent packets, each contiguous, per-sender order kept, every call succeeding; on the raw endpoint the loser gets BusyResourceError and the wire stays intact; every reachable FairLock state satisfies mutual exclusion, FIFO hand-off and no lost wake-up.",
     ),
     "C14": dict(
-        cat="fault_enumeration", ref="DESIGN.md §3 C14", engine="E2 vloop + mc/envsched.py + mc/memtransport.py",
-        technique="crash-point enumeration on the real asyncio loop: task.cancel() of the closing task and a second aclose() injected at every loop-iteration boundary of every close path, crossed with leaf-transport faults (raise / slow / block forever) and peer behaviours (reads later / never)",
+        cat="fault_enumeration", ref="DESIGN.md §3 C14", engine="E2 vloop + mc/envsched.py + mc/memtransport.py + E7 tlsrig (props/c14_tls.py)",
+        technique="crash-point enumeration on the real asyncio loop: task.cancel() of the closing task and a second aclose() injected at every loop-iteration boundary of every close path, crossed with leaf-transport faults (raise / slow / block forever) and peer behaviours (reads later / never); TLS: aclose with a peer that answers close_notify or stays silent (shutdown timeout), wrap() with the handshake cut at several offsets or stalled (handshake timeout)",
         text="For every close path and every injected cancellation point and leaf fault: when the closing task has finished (returned, raised, cancelled) every leaf transport / socket is closed, is_closing() is true, a concurrent second close returns no later than 3 iterations after the first, a later close returns at once; both halves of a stapled pair are closed even if closing the first fails.",
     ),
     "C08": dict(
